@@ -544,6 +544,19 @@ fn extra_strings() -> Vec<String> {
             v.push(format!("+{}{}", "0".repeat(z), d));
         }
     }
+    // every printable non-digit ASCII character (and a few control / non-ASCII ones) in every
+    // position of short numerals: nothing but digits and a leading '+' is a numeral
+    for base in ["1", "12", "0", "127", "16383"] {
+        for c in (0x20u8..0x7f).filter(|c| !c.is_ascii_digit()).map(|c| c as char).chain(['\u{0}', '\t', '\r', '\u{7f}', '\u{a0}', '\u{2212}', '\u{ff10}', '\u{660}']) {
+            for pos in 0..=base.len() {
+                let mut s = String::new();
+                s.push_str(&base[..pos]);
+                s.push(c);
+                s.push_str(&base[pos..]);
+                v.push(s);
+            }
+        }
+    }
     v.push("18446744073709551616".into());
     v.push("340282366920938463463374607431768211455".into());
     v.push("340282366920938463463374607431768211456".into());
